@@ -221,8 +221,11 @@ def check_graph(case, ctx):
                 set_ds = collections.Counter(ds_name(q.evaluatable) for q in by[CacheSetRequest])
                 get_ds = collections.Counter(ds_name(q.evaluatable) for q in by[CacheGetRequest])
                 log_ds = collections.Counter(ds_name(q) for q in by[LogRequest])
+                derived_bases = {b for b, _ in G.derived}
                 for name in (r.must - r.spec_bodies) & cacheable:
-                    if name not in G.ds:
+                    if name not in G.ds or name in derived_bases:
+                        # (a copy derived from a dataset shares its name: which of the two objects a request belongs to
+                        # cannot be told from the name)
                         continue
                     if not any(s is G.ds[name] for s in ev_subjects):
                         continue   # served through a consumer's cache hit: never reached in this phase
